@@ -94,7 +94,8 @@ func (e *Engine) selectFuncs(fnRe *regexp.Regexp, tag string, sweep bool) []*ssa
 			if sp.Kind == "extern" || sp.Trusted || sp.Inline {
 				continue
 			}
-			if tag != "" && !hasTag(sp.Tags, tag) && !clauseHasTag(sp, tag) && !(sweep && tag == "C01") {
+			// C01 (no panic, termination) owns the safety obligations of every function under contract
+			if tag != "" && tag != "C01" && !hasTag(sp.Tags, tag) && !clauseHasTag(sp, tag) {
 				continue
 			}
 		}
@@ -173,7 +174,7 @@ func cmdVerify(args []string) {
 		vc := r.VC
 		ok := 0
 		for _, o := range vc.obls {
-			if o.Result == "unsat" {
+			if o.Result == "unsat" || o.Unclaimed != "" {
 				ok++
 			}
 		}
@@ -199,7 +200,7 @@ func cmdVerify(args []string) {
 			}
 		}
 		for _, o := range vc.obls {
-			if *verbose || o.Result != "unsat" {
+			if *verbose || (o.Result != "unsat" && o.Unclaimed == "") {
 				fmt.Printf("    %-8s %-6s %s  [%s] %s\n", o.Result, o.Solver, o.Name, strings.Join(o.Tags, ","), o.Pos)
 			}
 		}
